@@ -46,7 +46,26 @@ func egEnrich(t *rapid.T, g *egSpec) {
 		a := alts[rapid.IntRange(0, len(alts)-1).Draw(t, "ealt")]
 		pos := rapid.IntRange(0, len(a.Parts)).Draw(t, "epos")
 		var p *egPart
-		switch rapid.IntRange(0, 7).Draw(t, "ekind") {
+		switch rapid.IntRange(0, 8).Draw(t, "ekind") {
+		case 8: // make the element of some list nullable (all of its parts optional)
+			var lists []*egPart
+			for _, x := range alts {
+				for _, q := range x.Parts {
+					if q.K == "list" {
+						lists = append(lists, q)
+					}
+				}
+			}
+			if len(lists) > 0 {
+				l := lists[rapid.IntRange(0, len(lists)-1).Draw(t, "nullList")]
+				el := l.Alts[0]
+				for pi, q := range el.Parts {
+					if q.K == "t" || q.K == "n" {
+						el.Parts[pi] = &egPart{K: "opt", Alts: []*egAlt{{Parts: []*egPart{q}}}}
+					}
+				}
+			}
+			continue
 		case 0, 1:
 			p = &egPart{K: "set", Neg: rapid.IntRange(0, 3).Draw(t, "sneg") == 0}
 			k := rapid.IntRange(1, 3).Draw(t, "ssize")
@@ -91,6 +110,23 @@ func egEnrich(t *rapid.T, g *egSpec) {
 			js, _ := json.Marshal(orig) // deep copy (the copy may be inserted inside the original)
 			p = &egPart{}
 			json.Unmarshal(js, p)
+			// half of the copies differ from the original in one detail that the provisional name
+			// of the extracted nonterminal does not show: a two-token separator, the other
+			// quantifier, or one more optional symbol in the element
+			if p.K == "list" {
+				switch rapid.IntRange(0, 5).Draw(t, "dupVariation") {
+				case 0:
+					orig.Sep, orig.Sep2 = rapid.IntRange(1, g.T-1).Draw(t, "s1"), rapid.IntRange(1, g.T-1).Draw(t, "s2")
+					p.Sep, p.Sep2 = orig.Sep2, orig.Sep
+					if p.Sep == p.Sep2 {
+						p.Sep2 = 1 + p.Sep%(g.T-1)
+					}
+				case 1:
+					p.Plus = !p.Plus
+				case 2:
+					p.Alts[0].Parts = append(p.Alts[0].Parts, &egPart{K: "opt", Alts: []*egAlt{{Parts: []*egPart{{K: "t", Sym: rapid.IntRange(1, g.T-1).Draw(t, "optT")}}}}})
+				}
+			}
 		case 7: // alias
 			if len(a.Parts) > 0 {
 				q := a.Parts[rapid.IntRange(0, len(a.Parts)-1).Draw(t, "aliasOf")]
@@ -142,6 +178,9 @@ func egDenote(g *egSpec, term func(t int) int, universe []int, L int) []oracle.L
 			var sep oracle.LangSet
 			if p.Sep != 0 {
 				sep = oracle.Single(term(p.Sep))
+				if p.Sep2 != 0 {
+					sep = oracle.Concat(sep, oracle.Single(term(p.Sep2)), L)
+				}
 			}
 			return oracle.Star(alt(p.Alts[0]), sep, p.Plus, L)
 		case "set":
@@ -276,6 +315,25 @@ func c13Check(c c13Case, r *ev.Recorder) *Failure {
 			big = true
 		}
 	}
+	// Every other user nonterminal keeps its name in the plain grammar and must keep its language
+	// too (no surrounding context is needed to see a difference, so this is the sharper test).
+	isInput := map[int]bool{}
+	for _, in := range g.Inputs {
+		isInput[in.NT] = true
+	}
+	for i, nt := range g.NTs {
+		gi, ok := ntIndex[nt.Name]
+		if !ok || isInput[i] {
+			continue
+		}
+		w, gt := want[i], got[gi]
+		if d := oracle.Diff(w, gt, 3); len(d) > 0 {
+			return failf("language-lost", "nonterminal %s: the extended notation derives [%s] (length <= %d) but the generated plain rules do not; grammar:\n%s", nt.Name, symString(out, d[0]), L, src)
+		}
+		if d := oracle.Diff(gt, w, 3); len(d) > 0 {
+			return failf("language-added", "nonterminal %s: the generated plain rules derive [%s] (length <= %d) which the extended notation does not denote; grammar:\n%s", nt.Name, symString(out, d[0]), L, src)
+		}
+	}
 	var walk func(a *egAlt, depth int)
 	walk = func(a *egAlt, depth int) {
 		for _, p := range a.Parts {
@@ -307,7 +365,7 @@ func TestC13(t *testing.T) {
 		ID:   "C13",
 		Rule: "grammars in extended notation (optional parts on references and groups, nested choices up to depth 3, + and * lists over references/sequences/choices with and without separators, nullable elements, lists inside lists), enriched with set(a|b) and set(~(a|eoi)) references, (?= X) and (?= !X) lookahead markers, state markers, mid-rule commands, aliases, arrows, recursion through any nonterminal, the same list/optional expression repeated in several places (extracted nonterminal reuse) and user nonterminals named like extracted ones; rendered to .tm and compiled with compiler.Compile; grammar.Parser.Rules is read even when table construction reports conflicts. For every input nonterminal the set of terminal strings of length <= L (L=5 for <=3 terminals, else 4) denoted by the extended notation (sets = choice of their terminals, markers/lookaheads/commands = empty string) must equal the set derived by the plain rules (least fixpoint enumeration on both sides). Non-trivial: grammar with a list or nesting depth >= 2 and at least 3 strings in the bounded language; distinct by spec JSON.",
 		Assume: []string{"right-recursive lists cannot be written in .tm syntax and are not generated", "exact up to the length bound L only"},
-		Quick: 1500, Thorough: 30000,
+		Quick: 9000, Thorough: 120000,
 		Gen:   c13Gen,
 		Check: c13Check,
 	}
